@@ -5,8 +5,12 @@ import contextlib
 import itertools
 import signal
 
-from streamflow.core.workflow import Token, Workflow
+import asyncio
+
+from streamflow.core.workflow import Status, Token, Workflow
 from streamflow.workflow.combinator import CartesianProductCombinator, DotProductCombinator
+from streamflow.workflow.step import CombinatorStep
+from streamflow.workflow.token import TerminationToken
 
 from sfv.framework import Ctx, Property
 from sfv.rt import loop as sfloop
@@ -99,6 +103,38 @@ async def run_real(wf: Workflow, shape: dict, events: list) -> tuple[list, str |
     except Exception as e:  # noqa: BLE001
         return out, type(e).__name__
     return out, None
+
+
+async def run_step(sfc, shape: dict, events: list, name: str) -> list:
+    """the same stream through a REAL CombinatorStep with real ports: a feeder task puts the (persisted) tokens on the
+    input ports in the given order, yielding after each one, while `step.run()` consumes them; the order in which the
+    step sees tokens of different ports is decided by the controlled loop. Returns the schemas read off the output ports."""
+    wf = Workflow(context=sfc, config={}, name=name)
+    comb = build(wf, shape)
+    ports = nest_ports(shape) if shape["kind"] == "nest" else list(range(shape["P"]))
+    step = wf.create_step(cls=CombinatorStep, name="/comb", combinator=comb)
+    ins, outs = {}, {}
+    for p in ports:
+        ins[p], outs[p] = wf.create_port(), wf.create_port()
+        step.add_input_port(f"p{p}", ins[p])
+        step.add_output_port(f"p{p}", outs[p])
+    await wf.save(sfc.database)
+
+    async def feeder():
+        for p, tag, val in events:
+            t = Token(value=val, tag=tag)
+            await t.save(sfc.database, port_id=ins[p].persistent_id)
+            ins[p].put(t)
+            await asyncio.sleep(0)
+        for p in ports:
+            ins[p].put(TerminationToken(Status.COMPLETED))
+
+    await asyncio.gather(asyncio.create_task(feeder()), asyncio.create_task(step.run()))
+    cols = {p: [t for t in outs[p].token_list if not isinstance(t, TerminationToken)] for p in ports}
+    n = {len(v) for v in cols.values()}
+    if len(n) != 1:
+        return [[(p, t.tag, t.value)] for p in ports for t in cols[p]]  # ragged output: reported as it is
+    return [[(p, cols[p][i].tag, cols[p][i].value) for p in ports] for i in range(n.pop())]
 
 
 def canon(out: list) -> list:
@@ -500,6 +536,66 @@ class C02(Property):
             if len(batch) >= 4000:
                 self._flush(ctx, batch)
         self._flush(ctx, batch)
+        self._steps(ctx)
+
+    def _steps(self, ctx: Ctx) -> None:
+        """well-formed streams through a real CombinatorStep (ports, persistence, `asyncio.wait` in `run`) under the
+        controlled loop: whatever interleaving of the ports the loop picks, the output ports carry the specified schemas"""
+        rng = ctx.rng
+        n = 40 if ctx.tier == "quick" and ctx.mode == "check" else 300
+        sfc = sfctx.make_context(ctx.scratch)
+        try:
+            for i in range(n):
+                if ctx.out_of_time():
+                    ctx.extra["incomplete"] = True
+                    break
+                P = rng.choice([2, 2, 3])
+                r = rng.random()
+                if r < 0.5:
+                    shape = {"kind": "dot", "P": P}
+                    S = gen_dot_stream(rng, P, True)
+                elif r < 0.8:
+                    shape = {"kind": "cart", "depth": rng.choice([1, 1, 2]), "P": P}
+                    S = gen_cart_stream(rng, P, shape["depth"], True)
+                else:
+                    shape = {"kind": "nest", "items": [["c", 1, [0, 1]], 2] if rng.random() < 0.5 else [["d", [0, 1]], 2]}
+                    S = gen_dot_stream(rng, 0, True, ports=[0, 1, 2]) if shape["items"][0][0] == "d" else (
+                        gen_cart_stream(rng, 0, 1, True, ports=[0, 1]) + [(2, "0", 777)])
+                S = S[:8]
+                if shape["kind"] == "dot":
+                    spec = spec_dot(list(range(P)), S)
+                elif shape["kind"] == "cart":
+                    spec = spec_cart(shape["depth"], list(range(P)), S)
+                else:
+                    spec = spec_nest(shape, S)
+                    if spec is None:
+                        continue
+                order = list(range(len(S)))
+                rng.shuffle(order)
+                evs = [S[j] for j in order]
+                seed = rng.randrange(1 << 30)
+                try:
+                    with alarm(90):
+                        out = sfloop.run_controlled(lambda: run_step(sfc, shape, evs, f"w{ctx.seed}-{ctx.mode}-{i}"), seed, timeout=60)
+                except (Hang, TimeoutError):
+                    ctx.fail(f"{shape['kind']}:step:hang", f"CombinatorStep.run did not finish within 60 s on {shape} {evs} (loop seed {seed})",
+                             {"shape": shape, "stream": S, "orders": [order], "step_seed": seed})
+                    continue
+                except Exception as e:  # noqa: BLE001
+                    ctx.fail(f"{shape['kind']}:step:exception", f"CombinatorStep.run raised {type(e).__name__}: {e} on {shape} {evs}",
+                             {"shape": shape, "stream": S, "orders": [order], "step_seed": seed})
+                    continue
+                ctx.case({"shape": shape, "stream": evs, "via": "CombinatorStep.run", "loop_seed": seed, "emitted": len(out)},
+                         ("step", line_of(shape, evs)) if out else None, f"step:{shape['kind']}")
+                if canon(out) != spec:
+                    ctx.fail(f"{shape['kind']}:step:wf:not-the-specified-combinations",
+                             f"CombinatorStep.run over {shape}, well-formed stream fed in order {evs} (loop seed {seed}): output ports carry "
+                             f"{canon(out)[:6]}, specified {spec[:6]}", {"shape": shape, "stream": S, "orders": [order], "step_seed": seed})
+        finally:
+            try:
+                sfloop.run_controlled(lambda: sfctx.close_context(sfc), 0, timeout=30)
+            except Exception:  # noqa: BLE001
+                pass
 
     def replay(self, ctx: Ctx, data) -> None:
         r = data.get("replay") or data.get("case") or {}
@@ -508,6 +604,8 @@ class C02(Property):
         if "shape" not in r:
             return super().replay(ctx, data)
         shape, S = r["shape"], [tuple(e) for e in r["stream"]]
+        if "step_seed" in r:
+            return self._replay_step(ctx, r, shape, S)
         wf = Workflow(context=sfctx.make_context(ctx.scratch), config={}, name="w")
         ords = [tuple(o) for o in (r.get("orders") or [list(range(len(S)))])]
         results = []
@@ -539,6 +637,28 @@ class C02(Property):
         cans = [canon(out) for out, _ in results]
         if not wfok and any(c != cans[0] for c in cans) and not has_dup(ports, S):
             ctx.fail(KEY_DESC if kind == "dot" else KEY_MIXED, f"orders emit different multisets: {cans}", r)
+
+
+    def _replay_step(self, ctx: Ctx, r, shape, S) -> None:
+        evs = [S[j] for j in r["orders"][0]]
+        ports = list(range(shape["P"])) if shape["kind"] != "nest" else nest_ports(shape)
+        spec = (spec_dot(ports, S) if shape["kind"] == "dot" else
+                spec_cart(shape["depth"], ports, S) if shape["kind"] == "cart" else spec_nest(shape, S))
+        sfc = sfctx.make_context(ctx.scratch)
+        try:
+            with alarm(90):
+                out = sfloop.run_controlled(lambda: run_step(sfc, shape, evs, "replay"), r["step_seed"], timeout=60)
+            print(f"CombinatorStep.run over {shape}\nfed in order {evs} (loop seed {r['step_seed']})\n"
+                  f"   output ports: {canon(out)}\n   specified   : {spec}")
+            if canon(out) != spec:
+                ctx.fail(f"{shape['kind']}:step:wf:not-the-specified-combinations", "still differs", r)
+        except (Hang, TimeoutError):
+            ctx.fail(f"{shape['kind']}:step:hang", "still hangs", r)
+        finally:
+            try:
+                sfloop.run_controlled(lambda: sfctx.close_context(sfc), 0, timeout=30)
+            except Exception:  # noqa: BLE001
+                pass
 
 
 PROPERTY = C02()
